@@ -96,8 +96,10 @@ def c14(ctx, t0):
     res = []
     if want(ctx, 'records'):
         res.append(ctx.run_child('records', [hx, 'c14'], T(ctx, 300, 2400)))
+    if want(ctx, 'agent-after-reload'):
+        res.append(ovl_stage(ctx, 'agent-after-reload', 'TestVerifC14Agent', T(ctx, 300, 900)))
     floors = {'writes:hmac_sha256_scrypt': (counters(res, 'writes:hmac_sha256_scrypt'), 50), 'writes:argon2id': (counters(res, 'writes:argon2id'), 50),
-              'writes:rewrite-same-password': (counters(res, 'writes:rewrite-same-password'), 10), 'files_scanned_for_secrets': (counters(res, 'files_scanned_for_secrets'), 40)}
+              'writes:rewrite-same-password': (counters(res, 'writes:rewrite-same-password'), 10), 'files_scanned_for_secrets': (counters(res, 'files_scanned_for_secrets'), 40), 'records_after_reload': (counters(res, 'records_after_reload'), 15)}
     return finish(ctx, 'exploration', res, COMMON_ASSUME + ['digest recomputation uses x/crypto scrypt/argon2 + crypto/hmac directly from the generated YAML values (r,p omitted or <= 0 => 8,1)'], floors, t0)
 
 
